@@ -731,3 +731,16 @@ package bigbuff
 //@   requires arity : len(args) == len(results)
 //@   requires typed : all(j, 0, len(args), rv_valid(args[j]) && rt_assignable(rv_type(args[j]), rt_elem(rt_of(results[j]))))
 //@   nopanic always : true
+
+// ---------------------------------------------------------------------------------------------------
+// C15 — Notifier (notifier.go). Index structure of PublishContext: failureRefs[i] is the index in
+// successCases of the subscriber whose context case is failureCases[i]; strictly increasing.
+
+//@ type notifierSubscriber as s
+
+//@ func (*Notifier).PublishContext
+//@   props C15
+//@   loop 0 invariant build : len(exitCases) <= 1 && len(failureRefs) == len(failureCases) && all(j, 0, len(failureRefs), 0 <= failureRefs[j] && failureRefs[j] < len(successCases)) && all(j, 0, len(failureRefs) - 1, failureRefs[j] < failureRefs[j+1]) && heldR(n.mutex)
+//@   loop 1 invariant main : len(exitCases) <= 1 && len(failureRefs) == len(failureCases) && all(j, 0, len(failureRefs), 0 <= failureRefs[j] && failureRefs[j] < len(successCases)) && all(j, 0, len(failureRefs) - 1, failureRefs[j] < failureRefs[j+1]) && heldR(n.mutex)
+//@   loop 2 invariant search : failureIndex == -1 && 0 <= successIndex && successIndex < len(successCases) && all(j, 0, rangeindex + 1, failureRefs[j] != successIndex)
+//@   loop 3 invariant rebase : -1 <= i__0 && i__0 < len(failureRefs) && len(failureRefs) == len(atentry(3, failureRefs)) && all(j, i__0 + 1, len(failureRefs), atentry(3, failureRefs)[j] > successIndex && failureRefs[j] == atentry(3, failureRefs)[j] - 1) && all(j, 0, i__0 + 1, failureRefs[j] == atentry(3, failureRefs)[j])
